@@ -166,7 +166,7 @@ func (g *FuncGen) instr(in ssa.Instruction) {
 		}
 		c.sortOf(x.X.Type())
 		f := st.Field(x.Field)
-		g.set(x, Val{T: fmt.Sprintf("(%s!%s %s)", name, sanitize(f.Name()), sv.T), S: c.sortOf(f.Type()), GT: f.Type()})
+		g.set(x, Val{T: fmt.Sprintf("(%s!%s %s)", name, fieldName(f), sv.T), S: c.sortOf(f.Type()), GT: f.Type()})
 	case *ssa.IndexAddr:
 		g.indexAddr(x)
 	case *ssa.Index:
@@ -579,7 +579,7 @@ func (g *FuncGen) storeStruct(ref string, t types.Type, val string) {
 	c.sortOf(t)
 	for i := 0; i < stt.NumFields(); i++ {
 		f := stt.Field(i)
-		fv := fmt.Sprintf("(%s!%s %s)", name, sanitize(f.Name()), val)
+		fv := fmt.Sprintf("(%s!%s %s)", name, fieldName(f), val)
 		switch {
 		case isStructType(f.Type()):
 			g.storeStruct(c.subRef(name, f, ref), f.Type(), fv)
@@ -828,7 +828,7 @@ func (g *FuncGen) valuesEqual(a, b string, t types.Type) string {
 		var parts []string
 		for i := 0; i < u.NumFields(); i++ {
 			f := u.Field(i)
-			sel := func(x string) string { return fmt.Sprintf("(%s!%s %s)", name, sanitize(f.Name()), x) }
+			sel := func(x string) string { return fmt.Sprintf("(%s!%s %s)", name, fieldName(f), x) }
 			parts = append(parts, g.valuesEqual(sel(a), sel(b), f.Type()))
 		}
 		return and(parts...)
